@@ -5,6 +5,7 @@ import (
 	"fmt"
 	"runtime"
 	"runtime/metrics"
+	"sort"
 	"strconv"
 	"strings"
 	"testing"
@@ -446,6 +447,63 @@ func FuzzBuild(f *testing.F) {
 			t.Fatalf("VERIF-VIOLATION property=C13 case=fuzz\n%s\n%v", c.Describe(), err)
 		}
 	})
+}
+
+// valuePieces: what the value grammars of the fields are made of (numbers, errno and record type names,
+// UNKNOWN[n], arch names, permission letters, key separators ...). Glued together they reach the corners
+// of every value parser, also the ones in the helper packages Build hands the text to.
+var valuePieces = []string{"UNKNOWN", "[", "]", "1", "1329", "-", "E", "PERM", "0x", "f", ",", "b64", " ", "=", "/", "\x01", "unset", "4294967296", "SYSCALL", "+"}
+
+// TestC13ValueSweep: every field name x {exit, exclude, user} x every junk string and every concatenation
+// of up to two (thorough: three) value pieces, through Build and through the flag parser.
+func TestC13ValueSweep(t *testing.T) {
+	var values []string
+	values = append(values, junkStrings...)
+	depth := 2
+	if hx.Thorough() {
+		depth = 3
+	}
+	var rec func(prefix string, d int)
+	rec = func(prefix string, d int) {
+		if d > 0 {
+			values = append(values, prefix)
+		}
+		if d == depth {
+			return
+		}
+		for _, p := range valuePieces {
+			rec(prefix+p, d+1)
+		}
+	}
+	rec("", 0)
+	var fields []string
+	for name := range rulegen.FieldConst {
+		fields = append(fields, name)
+	}
+	sort.Strings(fields)
+	for _, list := range []string{"exit", "exclude", "user"} {
+		for _, field := range fields {
+			for _, v := range values {
+				c := C13Case{Kind: "build", TypeCode: int(rule.AppendSyscallRuleType), List: list, Action: "always",
+					Filters: []rule.FilterSpec{{Type: rule.ValueFilterType, LHS: field, Comparator: "=", RHS: v}}}
+				hC13.Eval()
+				if err := hx.Guard(propC13, c); err != nil {
+					hC13.Fail(t, "TestC13", c, "%v", err)
+				}
+			}
+		}
+	}
+	// the same values as the right-hand side of a flag line
+	for _, field := range []string{"msgtype", "exit", "arch", "uid", "perm", "filetype", "key", "a0"} {
+		for _, v := range values {
+			c := C13Case{Kind: "parse", Line: []byte("-a always,exclude -F " + rulegen.ShQuote(field+"="+v))}
+			hC13.Eval()
+			if err := hx.Guard(propC13, c); err != nil {
+				hC13.Fail(t, "TestC13", c, "%v", err)
+			}
+		}
+	}
+	hC13.Class("value-sweep")
 }
 
 // TestC13FieldCount: rules around the 64-field limit built from valid filters only, in every mix of value
